@@ -35,7 +35,7 @@ def insertNat (x : Nat × VerID) : List (Nat × VerID) → List (Nat × VerID)
   | y :: ys => if x.1 ≤ y.1 then x :: y :: ys else y :: insertNat x ys
 
 def fmtCache (c : Cache) : String :=
-  let es := c.sorted.map fun e => s!"{fmtR e.r}:{b01 e.valid}:{b01 e.reload}:{e.leader}:{joinC e.peers}"
+  let es := c.sorted.map fun e => s!"{fmtR e.r}:{b01 e.valid}:{b01 e.reload}:{b01 e.delayedOnly}:{e.leader}:{joinC e.peers}"
   let ls := (c.latest.foldl (fun acc x => insertNat x acc) []).map fun (id, v) => s!"{id}:{v.ver}:{v.confVer}"
   s!"sorted {joinSp es} | latest {joinSp ls}"
 
@@ -250,7 +250,16 @@ def step (s : St) (line : String) : St × String :=
     match id.toNat? with
     | some id =>
       match latestGet s.cache.latest id with
-      | some v => ({ s with cache := s.cache.update v (fun e => { e with reload := true }) }, "ok")
+      | some v => ({ s with cache := s.cache.update v (fun e => { e with reload := true, delayedOnly := false }) }, "ok")
+      | none => (s, "none")
+    | none => (s, "bad-op")
+  | ["delayreload", id] =>
+    -- needDelayedReloadReady (what the GC round sets after needDelayedReloadPending)
+    match id.toNat? with
+    | some id =>
+      match latestGet s.cache.latest id with
+      | some v => ({ s with cache := s.cache.update v (fun e =>
+          if e.reload && !e.delayedOnly then e else { e with reload := true, delayedOnly := true }) }, "ok")
       | none => (s, "none")
     | none => (s, "bad-op")
   | ["updleader", id, store] =>
